@@ -115,4 +115,8 @@ theorem putFbk_lf {s : St} (hl : LfOk s) (o l : Nat) : LfOk (putFbk s o l) := by
     · intro _; exact (mem_ins _ _ _).mpr (Or.inl rfl)
     · intro c; exact (mem_ins _ _ _).mpr (Or.inr (hl c))
 
+/-- block `i` is allocated and is not one of the bitmap's own blocks: a header block or a block handed out to a caller -/
+def UserUsed (s : St) (i : Nat) : Prop :=
+  i < s.bits.size ∧ bit s.bits i = true ∧ ¬ (bmOffBlk s ≤ i ∧ i < bmOffBlk s + bmLenBlk s)
+
 end IwModel.Fsm
